@@ -80,6 +80,18 @@ FoldComments == AllComments(DaySchedule(Expr, Today, NoCtx)) \subseteq {"c"}
 \* is_constant is sound: whenever the syntactic test says "constant", the fold paints the whole day
 \* with the last rule's kind - unconditionally (the code's iterator relies on it in every corner)
 ConstantSound == IsConstant(Expr) => ConstantDay(Expr, DayTiling(Expr, Today, NoCtx))
+\* non-vacuity: the clause of the first repair of R1 (a fallback tail accepts any mix of closed rules and whole days of its kind
+\* before it) is refuted: `24/7 open; 00:00-12:00 closed || 24/7 open` (R16)
+IsConstantR1(expr) ==
+  LET q    == expr.rules
+      kind == ConstantKind(expr)
+      stop == {i \in DOMAIN q : DayEmpty(q[i]) \/ ~Is0024(q[i]) \/ q[i].kind # kind}
+  IN IF q = <<>> THEN TRUE
+     ELSE IF stop = {} THEN kind = "closed"
+     ELSE LET t == CHOOSE i \in stop : \A j \in stop : j <= i
+          IN /\ q[t].op = "fallback" => \A j \in 1..(t - 1) : q[j].kind = "closed" \/ (q[j].kind = kind /\ Is0024(q[j]))
+             /\ q[t].kind = kind /\ RuleConstant(q[t])
+ConstantSoundR1 == IsConstantR1(Expr) => ConstantDay(Expr, DayTiling(Expr, Today, NoCtx))
 \* ... and the test is not vacuous / not trivially FALSE: some 3-rule sequence with a fallback is constant
 ConstantNeverWithFallback == ~(IsConstant(Expr) /\ \E i \in DOMAIN rs : rs[i].op = "fallback")
 \* statistics: the determined share must not be empty (vacuity guard through a TLC counter)
